@@ -46,6 +46,7 @@ fn main() {
         "C01" => props::c01::run(&ctx),
         "C05" => props::c05::run(&ctx),
         "C06" => props::c06::run(&ctx),
+        "C10" => props::c10::run(&ctx),
         "C19" => props::c19::run(&ctx),
         _ => {
             eprintln!("vcheck: no in-process engine for {}", prop);
